@@ -10,7 +10,7 @@ RULE = ("seeded designs (sim.gen swarm) x peer policy x transport x strategy; ea
         "sequence returned; distinct = (design skeleton, strategy set, peer policy, transport)")
 ASSUMPTIONS = ["reference semantics (sim/refsem.py) reads the documentation correctly; calibrated against acceptance counts",
                "fake peers return only genuine models of the clauses they receive (SAT search is real pycryptosat)"]
-BUDGET = {"quick": 40, "thorough": 900}
+BUDGET = {"quick": 300, "thorough": 900}
 RUNS = {"quick": 3000, "thorough": 400000}
 FORMULA = ["IterateSATGen", "CMSGen", "UniGen", "IterateGen", "UniformGen"]
 
